@@ -26,6 +26,12 @@ prop("C02", "proof",
      "clauses rest on collision resistance and discrete logarithms and are covered by correspondence + sweep on every mutation class the property lists, both suites, both interfaces "
      "(reduction theorems are added as they are proved; see DESIGN.md).",
      "DESIGN.md §10 C02")
+prop("C03", "proof",
+     "Coq theorem proof_complete: for every environment with Laws, every valid signature, every message list (any L), every index list (unsorted, duplicates allowed, "
+     "entries < L), every header / presentation header and all draws outside {r1 = 0, r2 = 0}: proof_gen = Ok p, proof_verify with exactly the disclosed messages at their "
+     "positions = Ok, |to_bytes p| = 272 + 32 U, from_bytes(to_bytes p) = Ok p; index lemmas (complement, U + R = L, sort/dedup) by induction. Tied to the code by byte-for-byte "
+     "correspondence of proof_gen under the production RNG (draws logged and replayed into the model) over all 2^L subsets for small L and sampled subsets up to L = 300.",
+     "DESIGN.md §10 C03")
 prop("C08", "proof",
      "no_panic theorems for ALL byte strings / index lists / counts for every decoder and every verifier, signer and holder entry point of the Rust-semantics model "
      "(slices, checked/unchecked usize arithmetic, unwrap), plus work bounds on the number of generators requested; tied to the code by outcome-class (Ok/Err/Panic/timeout) "
